@@ -10,11 +10,11 @@ use serde_json::{Value as Json, json};
 pub struct C19Prop;
 pub static C19: C19Prop = C19Prop;
 
-pub const PATHS: [&str; 26] = [
+pub const PATHS: [&str; 28] = [
     "literal", "concat-split", "concat-empty-left", "concat-empty-right", "slice", "slice-step", "collect", "partition-left",
     "partition-right", "filter", "type-filter", "map-identity", "repeat", "through-any-function", "through-union-if",
     "array-element", "tuple-component", "struct-field", "cell-content", "closure-result", "reduce-build", "string-ops",
-    "for-accumulate", "match-bound", "map-widened", "user-iterator-widened",
+    "for-accumulate", "match-bound", "map-widened", "user-iterator-widened", "slice-beyond", "slice-clamped",
 ];
 
 const PRELUDE: &str = "idf := (x: any) -> any { return x; }; yes := (x: any) -> bool { return true; }; \
@@ -102,6 +102,19 @@ pub fn build(v: &Json, path: &str, salt: usize) -> Option<String> {
             } else {
                 return None;
             }
+        }
+        "slice-beyond" => {
+            // bounds far outside the sequence on the low side (they are clamped, not wrapped)
+            let xs = arr?;
+            let mut padded: Vec<Json> = xs.clone();
+            padded.push(json!(98));
+            let n = xs.len() as i64;
+            format!("({}[-{}:{}])", lit::to_text(&json!(padded)), n + 6 + salt as i64, n)
+        }
+        "slice-clamped" => {
+            let xs = arr?;
+            let n = xs.len() as i64;
+            format!("({}[-{}:{}])", lit::to_text(&json!(xs)), n + 2 + salt as i64, n + 3)
         }
         "slice-step" => {
             let xs = arr?;
@@ -633,6 +646,9 @@ impl Property for C19Prop {
             (format!("{PRELUDE}cmp := (l: any, r: any) -> any {{ return (l == r, l != r, r == l); }}; cmp({ex}, {ey})"), equal, "runtime-triple"),
             (format!("{PRELUDE}neg := (l: any, r: any) -> any {{ return (!(l != r), !(l == r), !(!(l == r))); }}; neg({ex}, {ey})"), equal, "runtime-triple"),
             (format!("{PRELUDE}(!(({ex}) != ({ey})), !(({ex}) == ({ey})), !(!(({ey}) == ({ex}))))"), equal, "runtime-triple"),
+            // operands whose static types are different unions that share the value's type
+            (format!("{PRELUDE}ua := if hide(true) {{ {ex} }} else {{ \"other\" }}; ub := if hide(true) {{ {ey} }} else {{ 2.5 }}; (ua == ub, ua != ub, ub == ua)"), equal, "runtime-triple"),
+            (format!("{PRELUDE}fa := () -> any {{ return {ex}; }}; ua := if hide(true) {{ {ex} }} else {{ [\"other\"] }}; ub := if hide(false) {{ (1, 2) }} else {{ {ey} }}; (ua == ub, ua != ub, [ub] == [ua])"), equal, "runtime-triple"),
             // a comparing function whose first parameter is spelled like the function itself (the parameter wins)
             (format!("{PRELUDE}eqself := (eqself: any, other: any) -> any {{ return (eqself == other, eqself != other, other == eqself); }}; eqself({ex}, {ey})"), equal, "runtime-triple"),
             (format!("{PRELUDE}pick := (pick: any, other: any) -> any {{ m := match pick {{ (other) => true, => false, }}; return (m, !m, other == pick); }}; pick({ex}, {ey})"), equal, "runtime-triple"),
